@@ -97,6 +97,8 @@ impl<G: AffineRepr> TranscriptProtocol<G> for Transcript {
         self.challenge_bytes(label, &mut buf);
 
         let mut prng = ChaChaRng::from_seed(buf);
+        #[cfg(feature = "verif-hooks")]
+        crate::verif_hooks::record_challenge(label, &G::ScalarField::rand(&mut prng.clone()));
         G::ScalarField::rand(&mut prng)
     }
 }
